@@ -216,7 +216,7 @@ class LeanResult:
         self.build_ok = False
 
 
-def lean_obligations(pid, thorough=False):
+def lean_obligations(pid, thorough=False, extra=None):
     """build Props/<pid>.lean, audit axioms of every theorem in it, grep forbidden tokens"""
     res = LeanResult()
     module = "RtcVerif.Props.%s" % pid
@@ -265,15 +265,39 @@ def lean_obligations(pid, thorough=False):
         res.build_ok = True
         if re.search(r"declaration uses .sorry.", out):
             res.broken.append((module, "declaration uses sorry"))
+        # generated modules (source-to-Lean translation, see harness/translate.py): own obligations
+        extra_ok = []
+        for (emod, ens, ethms) in (extra or []):
+            epath = os.path.join(LEAN_DIR, *emod.split(".")) + ".lean"
+            bad = FORBIDDEN.search(strip_lean_comments(open(epath).read())) if os.path.exists(epath) else None
+            ecmd = ["lake", "build", emod]
+            res.cmds.append("cd lean && " + " ".join(ecmd))
+            pe = subprocess.run(ecmd, cwd=LEAN_DIR, capture_output=True, text=True, timeout=3000)
+            for t in ethms:
+                res.theorems.append(emod.split(".")[-1] + "." + t)
+            if pe.returncode != 0 or bad:
+                eo = pe.stdout + pe.stderr
+                errs = [l for l in eo.splitlines() if l.startswith("error")]
+                for t in ethms:
+                    res.broken.append((emod.split(".")[-1] + "." + t,
+                                       "generated module does not check against the model: " + ((errs[0] if errs else str(bad))[:300])))
+            else:
+                extra_ok.append((emod, ens, ethms))
         # audit
         adir = os.path.join(LEAN_DIR, ".audit")
         os.makedirs(adir, exist_ok=True)
         afile = os.path.join(adir, pid + ".lean")
+        own = [t for t in res.theorems if "." not in t]
         with open(afile, "w") as f:
             f.write("import %s\n" % module)
-            for t in res.theorems:
+            for (emod, ens, ethms) in extra_ok:
+                f.write("import %s\n" % emod)
+            for t in own:
                 full = (ns + "." + t) if ns else t
                 f.write("#print axioms %s\n" % full)
+            for (emod, ens, ethms) in extra_ok:
+                for t in ethms:
+                    f.write("#print axioms %s.%s\n" % (ens, t))
         acmd = ["lake", "env", "lean", afile]
         res.cmds.append("cd lean && lake env lean .audit/%s.lean  # #print axioms of every theorem" % pid)
         p = subprocess.run(acmd, cwd=LEAN_DIR, capture_output=True, text=True, timeout=1200)
@@ -287,8 +311,15 @@ def lean_obligations(pid, thorough=False):
                 res.broken.append(("leanchecker", (pc.stdout + pc.stderr)[-400:]))
     # parse "'name' depends on axioms: [a, b]" / "'name' does not depend on any axioms"
     text = re.sub(r"\s+", " ", aout)
+    extra_full = {}
+    for (emod, ens, ethms) in (extra or []):
+        for t in ethms:
+            extra_full[emod.split(".")[-1] + "." + t] = ens + "." + t
+    already_broken = {n for n, _ in res.broken}
     for t in res.theorems:
-        full = (ns + "." + t) if ns else t
+        if t in already_broken:
+            continue
+        full = extra_full.get(t) or ((ns + "." + t) if ns else t)
         m = re.search(r"'%s' depends on axioms: \[([^\]]*)\]" % re.escape(full), text)
         if m:
             axs = {a.strip() for a in m.group(1).split(",") if a.strip()}
@@ -482,9 +513,10 @@ class Check:
             self.broken.append(("model driver", str(e)[:600]))
             return None
 
-    def prove(self):
-        """proof obligations of this property (lake build + axiom audit)"""
-        self.lean = lean_obligations(self.pid, thorough=(self.tier == "thorough"))
+    def prove(self, extra=None):
+        """proof obligations of this property (lake build + axiom audit); `extra` = generated modules
+        [(module, namespace, [theorem names])] whose theorems count as obligations too"""
+        self.lean = lean_obligations(self.pid, thorough=(self.tier == "thorough"), extra=extra)
         for name, why in self.lean.broken:
             self.broken.append((name, why))
         return self.lean
